@@ -237,7 +237,8 @@ def build_close(reg, common):
                         "implies(self.closeHandshakeTimeoutCall is not None, self.closeHandshakeTimeoutCall.kind == 2)"],
         modifies=sorted(set(FAIL_MOD + ["self.remoteCloseCode", "self.remoteCloseReason", "self.wasClean",
                                         "self.closeHandshakeTimeoutCall", "self.closeHandshakeTimeoutCall.active",
-                                        "self.serverConnectionDropTimeoutCall", "ghost.timers_armed"])),
+                                        "self.serverConnectionDropTimeoutCall",
+                                        "self.serverConnectionDropTimeoutCall.active", "ghost.timers_armed"])),
         ensures=INV + [
             MONO,
             # ---- C02: verdict on the close payload (code per RFC 6455 7.4 / IANA; reason complete valid UTF-8)
@@ -271,6 +272,10 @@ def build_close(reg, common):
             "implies(old(self.closeHandshakeTimeoutCall) is not None, not old(self.closeHandshakeTimeoutCall).active))",
             "implies(old(self.state) == 2 and not self.failedByMe and not self.factory.isServer and "
             "self.serverConnectionDropTimeout > 0, " + CLIENT_DROP_TIMER + ")",
+            # ---- C05/C17 bounded time over histories: a drop deadline that is already pending is never pushed back by
+            #      (further) close frames -- the handle armed first stays active until it fires or the transport is lost
+            "implies(old(self.serverConnectionDropTimeoutCall) is not None and "
+            "old(self.serverConnectionDropTimeoutCall.active), old(self.serverConnectionDropTimeoutCall).active)",
         ],
         hints=["utf8_decoder_agrees(reasonRaw)"], **common)
 
